@@ -214,6 +214,112 @@ def perturb(rng, spec):
     return "same", spec.replace()
 
 
+def reduce_json(spec) -> Dict[str, Any]:
+    """`spec.__reduce__()` in the layout of the model's `spec.reduce` (class name, positional constructor arguments)"""
+    cls, args = spec.__reduce__()
+    out = []
+    for a in args:
+        if isinstance(a, tuple):
+            out.append({"shape": [int(x) for x in a]})
+        elif isinstance(a, str):
+            out.append({"name": a})
+        elif isinstance(a, (int, np.integer)) and not isinstance(a, bool):
+            out.append({"nat": int(a)})
+        elif isinstance(a, np.dtype) or isinstance(a, type):
+            out.append({"dtype": str(np.dtype(a))})
+        else:
+            arr = np.asarray(a)
+            if cls.__name__ == "MultiDiscreteArray":
+                out.append({"nat_arr": {"shape": list(arr.shape), "data": [int(x) for x in arr.reshape(-1)]}})
+            else:
+                out.append({"arr": {"shape": list(arr.shape), "data": speclib.rats(arr)}})
+    return {"cls": cls.__name__, "args": out}
+
+
+def cross_kind_partners(spec) -> List[Any]:
+    """specs of OTHER classes that share shape, dtype, name (and bounds where the class has them) with `spec`"""
+    import jax.numpy as jnp
+    from jumanji import specs
+
+    out = []
+    if type(spec) is not specs.Array:
+        out.append(specs.Array(spec.shape, spec.dtype, spec.name))
+        out.append(specs.Array(tuple(spec.shape) + (1,), spec.dtype, spec.name))
+    else:
+        try:
+            out.append(specs.BoundedArray(spec.shape, spec.dtype, 0, 1, spec.name))
+        except Exception:  # noqa: BLE001
+            pass
+    if isinstance(spec, (specs.DiscreteArray, specs.MultiDiscreteArray)):
+        out.append(specs.BoundedArray(spec.shape, spec.dtype, np.asarray(spec.minimum), np.asarray(spec.maximum), spec.name))
+        hi = np.asarray(spec.maximum).astype(np.int64) + 1
+        if hi.size and int(hi.max()) <= int(np.iinfo(np.dtype(spec.dtype)).max):
+            out.append(specs.BoundedArray(spec.shape, spec.dtype, np.asarray(spec.minimum), hi.astype(spec.dtype), spec.name))
+    if isinstance(spec, specs.DiscreteArray):
+        out.append(specs.MultiDiscreteArray(jnp.asarray(spec.num_values, jnp.int32), spec.dtype, spec.name))
+        out.append(specs.DiscreteArray(spec.num_values, spec.dtype, spec.name + "_y"))
+    if isinstance(spec, specs.MultiDiscreteArray) and tuple(spec.shape) == ():
+        out.append(specs.DiscreteArray(int(spec.num_values), spec.dtype, spec.name))
+    if type(spec) is specs.BoundedArray and tuple(spec.shape) == () and np.dtype(spec.dtype).kind in "iu":
+        lo, hi = int(np.asarray(spec.minimum)), int(np.asarray(spec.maximum))
+        if lo == 0:
+            out.append(specs.DiscreteArray(hi + 1, spec.dtype, spec.name))
+    return out
+
+
+def multi_kwargs(rng, spec):
+    """a random set of 1-3 keyword arguments for `replace` (values representable in the dtype): (python kwargs, model kws)"""
+    import jax.numpy as jnp
+    from jumanji import specs
+
+    py: Dict[str, Any] = {}
+    kws: List[Dict[str, Any]] = []
+    cands = ["name"]
+    if isinstance(spec, specs.DiscreteArray):
+        cands += ["num_values", "bad"]
+    elif isinstance(spec, specs.MultiDiscreteArray):
+        cands += ["num_values", "bad"]
+    elif isinstance(spec, specs.BoundedArray):
+        cands += ["minimum", "maximum", "shape"]
+    else:
+        cands += ["shape", "bad"]
+    order = [cands[i] for i in rng.permutation(len(cands))][: int(rng.integers(1, 4))]
+    for c in order:
+        if c == "name":
+            py["name"] = spec.name + "_r"
+            kws.append({"k": "name", "v": py["name"]})
+        elif c == "shape":
+            ns = (1,) + tuple(spec.shape) if rng.random() < 0.7 else tuple(spec.shape) + (2,)
+            py["shape"] = ns
+            kws.append({"k": "shape", "v": list(ns)})
+        elif c == "num_values" and isinstance(spec, specs.DiscreteArray):
+            nv = int(spec.num_values) + int(rng.integers(0, 3))
+            if nv - 1 > int(np.iinfo(np.dtype(spec.dtype)).max):
+                nv = int(spec.num_values)
+            py["num_values"] = nv
+            kws.append({"k": "num_values", "v": nv})
+        elif c == "num_values":
+            arr = np.asarray(spec.num_values).astype(np.int32)
+            arr = np.minimum(arr + rng.integers(0, 2, size=arr.shape).astype(np.int32), arr.max(initial=1))
+            if rng.random() < 0.3:
+                arr = arr.reshape((1,) + arr.shape)
+            py["num_values"] = jnp.asarray(arr, jnp.int32)
+            kws.append({"k": "num_values_arr", "shape": list(arr.shape), "v": [int(x) for x in arr.reshape(-1)]})
+        elif c in ("minimum", "maximum"):
+            lo, hi = bounds_of(spec)
+            dt = str(np.dtype(spec.dtype))
+            if c == "minimum":   # the smallest lower bound everywhere (a scalar): still below every maximum
+                v = np.asarray(lo.min(initial=0)).astype(dt)
+            else:
+                v = np.asarray(hi.max(initial=1)).astype(dt)
+            py[c] = v
+            kws.append({"k": c, "shape": [], "v": speclib.rats(v)})
+        elif c == "bad":   # not a constructor parameter of this class
+            py["minimum"] = 0
+            kws.append({"k": "minimum", "shape": [], "v": [[0, 1]]})
+    return py, kws
+
+
 def impl_validate(spec, v) -> bool:
     try:
         spec.validate(v)
@@ -374,9 +480,94 @@ def run(ctx: Ctx, extended: bool = False) -> None:
             p = pickle.loads(pickle.dumps(spec))
             if not (p == spec) or speclib.leaf_json(p) != js:
                 ctx.fail("specs", "pickle_roundtrip", "pickle round trip is not an equal spec", case0)
+            # __reduce__: the class and its positional constructor arguments, as the model's `reduce` has them; the model's
+            # `unreduce` (constructor re-run on those arguments) is the spec again
+            mr = drv.call("spec.reduce", spec=js)
+            ir = reduce_json(spec)
+            ctx.evaluations += 1
+            if {"cls": mr["cls"], "args": mr["args"]} != ir:
+                ctx.disagree("specs", "model __reduce__ != implementation", {**case0, "model": mr, "impl": ir})
+            if mr["unreduce"] != speclib.leaf_json(p):
+                ctx.disagree("specs", "model unreduce(reduce(spec)) != pickle round trip", {**case0, "model": mr["unreduce"], "impl": speclib.leaf_json(p)})
+            # replace with several keyword arguments at once (and keywords the class does not have): only the named attributes change
+            pykw, mkws = multi_kwargs(rng, spec)
+            ctx.evaluations += 1
+            try:
+                rr = spec.replace(**pykw)
+                irr: Any = speclib.leaf_json(rr)
+            except (TypeError, ValueError):
+                irr = None
+            mrr = drv.call("spec.replace", spec=js, kws=mkws)
+            ctx.count(f"replace_multi_{len(mkws)}_{'ok' if irr is not None else 'raises'}")
+            if mrr != irr:
+                ctx.disagree("specs", "model replace(several keywords) != implementation", {**case0, "kwargs": sorted(pykw), "model": mrr, "impl": irr})
+            if irr is not None:
+                before, after = drv.call("spec.attrs", spec=js), drv.call("spec.attrs", spec=irr)
+                named = {k["k"].replace("_arr", "") for k in mkws}
+                changed = {a for a in before if before[a] != after[a]}
+                if not changed <= named:
+                    ctx.fail("specs", "replace_only_named", f"replace({sorted(named)}) also changed {sorted(changed - named)}", {**case0, "after": repr(rr)[:300]})
+            # == across classes (reflected __eq__ of the base class)
+            for other in cross_kind_partners(spec):
+                try:
+                    jo2 = speclib.leaf_json(other)
+                except TypeError:
+                    continue
+                ctx.evaluations += 1
+                try:
+                    c1, c2 = bool(spec == other), bool(other == spec)
+                except Exception as e:  # noqa: BLE001
+                    ctx.fail("specs", "eq_raises", f"== across classes raises {type(e).__name__}: {e}", {**case0, "other": repr(other)[:300]})
+                    continue
+                mc = drv.call("spec.py_eq", a=js, b=jo2)
+                ctx.count(f"eq_cross_{type(spec).__name__}_{type(other).__name__}_{c1}")
+                if c1 != c2:
+                    ctx.fail("specs", "eq_symm", "equality across classes is not symmetric", {**case0, "other": repr(other)[:300]})
+                elif mc != c1:
+                    ctx.disagree("specs", "model == across classes != implementation", {**case0, "other": repr(other)[:300], "impl_eq": c1, "model_eq": mc})
             ctx.sample({"spec": repr(spec)[:200], "kind": kind})
         except DriverError as e:  # what the implementation reports is not something the model can represent (e.g. a negative count)
             ctx.disagree("specs", f"model cannot represent what the implementation reports: {e}", {"iteration": it})
+    # ---- the constructors and the dtype range: which (num_values, dtype) the real DiscreteArray / MultiDiscreteArray accept, and
+    # what they store — against the model's `ctorAccepts` / `storedMax`; accepted-but-not-well-formed = the count wrapped around
+    import jax.numpy as jnp0
+
+    edge = {"int8": [127, 128, 129, 200, 255, 256, 257, 300], "uint8": [255, 256, 257, 300, 511, 512, 513],
+            "int16": [32767, 32768, 32769, 65536, 65537, 70000], "int32": [2 ** 31 - 1, 2 ** 31, 2 ** 31 + 1, 2 ** 32, 2 ** 32 + 5]}
+    for it in range(n // 2):
+        dt = INT_DT[int(rng.integers(len(INT_DT)))]
+        nv0 = int(edge[dt][int(rng.integers(len(edge[dt])))]) if rng.random() < 0.7 else int(rng.integers(1, 600))
+        multi = rng.random() < 0.4 and nv0 < 2 ** 31
+        ctx.evaluations += 1
+        try:
+            if multi:
+                arr = np.asarray([nv0, int(rng.integers(1, 9))], np.int32)
+                sp = specs.MultiDiscreteArray(jnp0.asarray(arr, jnp0.int32), dt, "")
+                jsx = {"kind": "multi", "nv_shape": [2], "num_values": [int(x) for x in arr], "dtype": dt, "name": ""}
+            else:
+                jsx = {"kind": "discrete", "num_values": nv0, "dtype": dt, "name": ""}
+                sp = specs.DiscreteArray(nv0, dt, "")
+            accepted = True
+        except ValueError:
+            accepted = False
+            if multi:
+                jsx = {"kind": "multi", "nv_shape": [2], "num_values": [int(x) for x in arr], "dtype": dt, "name": ""}
+        mc = drv.call("spec.ctor", spec=jsx)
+        case = {"kind": jsx["kind"], "num_values": jsx["num_values"], "dtype": dt, "accepted": accepted, "model": mc}
+        ctx.nontrivial.add(("ctor", jsx["kind"], str(jsx["num_values"]), dt))
+        if mc["accepts"] != accepted:
+            ctx.disagree("specs", "model ctorAccepts != whether the constructor raises", case)
+            continue
+        if accepted:
+            stored = [int(x) for x in np.asarray(sp.maximum).reshape(-1)]
+            if stored != mc["stored_max"]:
+                ctx.disagree("specs", "model storedMax != the maximum the constructor stores", {**case, "stored": stored})
+            agrees = bool(np.array_equal(np.asarray(sp.num_values).astype(np.int64).reshape(-1), np.asarray(stored, np.int64) + 1))
+            if agrees != mc["wf"]:
+                ctx.disagree("specs", "well-formed (model) != num_values agrees with the stored maximum (implementation)", {**case, "stored": stored})
+            ctx.count("ctor_accepted_wf" if mc["wf"] else "ctor_accepted_wrapped_count")
+        else:
+            ctx.count("ctor_raises")
     # nested specs
     for it in range(n // 3):
         try:
@@ -439,6 +630,32 @@ def run(ctx: Ctx, extended: bool = False) -> None:
             if not all(ro):
                 ctx.fail("specs", "nested_eq_iff_children", f"nested specs with equal children given in another keyword order are not equal {ro}",
                          {"spec": repr(outer)[:300], "label": "reordered"}, {"label": "reordered"})
+            # nested replace: dict update of the children (existing key keeps its place, a new key is appended), name kept
+            def child_json(sp_):
+                return [{"key": k_, "spec": speclib.leaf_json(v_)} for k_, v_ in speclib.flatten_spec(sp_)]
+
+            def node_json(sp_):
+                return [{"key": k_, "spec": child_json(v_)} for k_, v_ in sp_._specs.items()]
+            newleaf = gen_leaf(rng)
+            rkw = {}
+            for k_, v_ in (("y", specs.Spec(NT2, "Inner2", p=k2, q=kids[0])), ("x", newleaf), ("w", kids[1])):
+                if rng.random() < 0.6:
+                    rkw[k_] = v_
+            try:
+                nodes = [node_json(outer), [{"key": k_, "spec": child_json(v_)} for k_, v_ in rkw.items()]]
+                rep = outer.replace(**rkw)
+                ctx.evaluations += 1
+                mrep = drv.call("spec.node_replace", name=outer.name, children=nodes[0], kws=nodes[1])
+                if mrep["name"] != rep.name or mrep["children"] != node_json(rep):
+                    ctx.disagree("specs", "model nested replace != implementation", {"spec": repr(outer)[:300], "kwargs": sorted(rkw), "model_keys": [c["key"] for c in mrep["children"]], "impl_keys": list(rep._specs)})
+                if mrep["flat"] != [{"key": k_, "spec": speclib.leaf_json(v_)} for k_, v_ in speclib.flatten_spec(rep)]:
+                    ctx.disagree("specs", "model flattening of the replaced nested spec != implementation", {"spec": repr(outer)[:300], "kwargs": sorted(rkw)})
+                for k_ in outer._specs:
+                    if k_ not in rkw and speclib.flatten_spec(rep._specs[k_]) != speclib.flatten_spec(outer._specs[k_]) and [speclib.leaf_json(v_) for _, v_ in speclib.flatten_spec(rep._specs[k_])] != [speclib.leaf_json(v_) for _, v_ in speclib.flatten_spec(outer._specs[k_])]:
+                        ctx.fail("specs", "nested_replace_only_named", f"nested replace({sorted(rkw)}) changed the child {k_}", {"spec": repr(outer)[:300]})
+                ctx.count(f"nested_replace_{len(rkw)}")
+            except TypeError:
+                pass
             try:
                 d = bool(outer == diff)
             except Exception as e:  # noqa: BLE001
